@@ -54,6 +54,30 @@ func probeStrings() []string {
 			}
 		}
 	}
+	// concatenations of codes of one metric (a parser matching substrings or prefixes would accept them)
+	for _, fam := range []string{"v3", "v2"} {
+		for _, d := range defsOf(fam) {
+			all, rev := "", ""
+			for _, c1 := range d.Codes {
+				all += c1.Code
+				rev = c1.Code + rev
+				for _, c2 := range d.Codes {
+					add(c1.Code + c2.Code)
+					add(c1.Code + "," + c2.Code)
+				}
+			}
+			add(all)
+			add(rev)
+			if len(all) > 2 {
+				add(all[:len(all)-1])
+				add(all[1:])
+			}
+		}
+	}
+	add("XLMH")
+	add("LMH")
+	add("XNALP")
+	add("NLH")
 	for _, s := range []string{"", " ", "X", "x", "ND", "nd", "Nd", "0", "1", "Unknown", "unknown", "None", "High", "N/A", ":", "/", "Ｎ", "Н", "Ｎ", "ñ", "X ", "NX", "?", "*", "\x00", "POC ", "poc", "Poc"} {
 		add(s)
 	}
